@@ -54,6 +54,7 @@ impl UnixCmsg {
         ensures
             final(buf)@.len() == old(buf)@.len(), vec_cap(final(buf)) == vec_cap(old(buf)),
             final(k).sock == old(k).sock, final(k).peer == old(k).peer, final(k).log == old(k).log,
+            final(k).rx_modes == old(k).rx_modes.push((fd, mode_code(blocking_mode))),
             final(self).iov == old(self).iov,
             r matches Ok(n) ==> {
                 let p = old(k).q[fd].first();
@@ -108,7 +109,7 @@ pub fn k_recv(Tracked(k): Tracked<&mut K>, fd: c_int, buf: &mut Vec<u8>, write_p
     ensures
         final(buf)@.len() == old(buf)@.len(), vec_cap(final(buf)) == vec_cap(old(buf)),
         final(buf)@.subrange(0, write_pos as int) == old(buf)@.subrange(0, write_pos as int),
-        final(k).sock == old(k).sock, final(k).peer == old(k).peer, final(k).log == old(k).log,
+        final(k).sock == old(k).sock, final(k).peer == old(k).peer, final(k).log == old(k).log, final(k).rx_modes == old(k).rx_modes,
         r > 0 ==> {
             let p = old(k).q[fd].first();
             &&& old(k).q[fd].len() > 0
@@ -240,3 +241,6 @@ pub proof fn lemma_skipped_snoc(k: K, q: Map<c_int, Seq<Packet>>, fd: c_int, n: 
         lemma_skipped_snoc(k, after_head(q, fd), fd, (n - 1) as nat, q1);
     }
 }
+
+// the blocking mode as a number (for the ghost log of first-packet receives)
+pub uninterp spec fn mode_code(m: BlockingMode) -> int;
